@@ -19,6 +19,7 @@ type verifStaticHosts struct {
 
 func (h *verifStaticHosts) Init(servers []string) error { h.servers = servers; return nil }
 func (h *verifStaticHosts) Len() int                    { return len(h.servers) }
+
 // Next never asks the client for its one-second pause between rounds: under a virtual clock a
 // request queued during that pause while a mysync mutex is held would freeze the clock. The
 // harness's dialer paces failed dials instead.
